@@ -1171,6 +1171,15 @@ fn arity4_emit_path<EF: Field>(
     injected_digests: &[Vec<Target>],
     selected_root: &[Target],
 ) -> Result<Vec<NonPrimitiveOpId>, CircuitBuilderError> {
+    // The recovered root is compared limb by limb with the cap entry: a shorter entry would
+    // leave digest limbs unchecked.
+    if selected_root.len() != permutation_config.capacity_ext() {
+        return Err(CircuitBuilderError::InvalidDimension {
+            expected: permutation_config.capacity_ext(),
+            actual: selected_root.len(),
+        });
+    }
+
     let mut output: Vec<Option<Target>> = leaf_digest.iter().copied().map(Some).collect();
     let mut op_ids = Vec::new();
 
